@@ -575,7 +575,10 @@ SPECS = {
                 needs=lambda lines: any(l.startswith("O trading 0") or (l.startswith("H ") and " book " in l and l.split()[6] == "0") for l in lines),
                 k=lambda f: f.kind == "K" and ((f.tr == "0" and bool(cfields(f))) or f.op.startswith("trading"))),
     "C14": dict(modules=["Bourse.Props.C14"],
-                a=lambda f: f.hkind in ("menv", "market") and f.kind == "A" and f.audit in ("C14", "SH"),
+                # ... and, in a multi-asset environment, every per-asset clause of the single-asset environment properties
+                # (an asset's cache, records, clock and batch must be those of a stand-alone environment)
+                a=lambda f: (f.hkind in ("menv", "market") and f.kind == "A" and f.audit in ("C14", "SH"))
+                            or (f.hkind == "menv" and f.kind == "A" and f.audit in ("C08", "C10", "C11", "C02")),
                 k=lambda f: f.hkind in ("menv", "market") and f.kind == "K"),
     "C15": dict(modules=["Bourse.Props.C15"],
                 a=lambda f: is_env(f) and f.kind == "A" and f.audit in ("RNG", "ORD"),
